@@ -330,11 +330,10 @@ def FState.processExcludedMove (cfg : Config) (s : FState α) (cmd : Cmd α) (de
     .ok (s, cmds ++ more)
   else .ok (s, cmds)
 
-/-- `processLinearMoves(cmd, extruderPosition, feedRate, finalZ, *xyPairs)` -/
-def FState.processLinearMoves (cfg : Config) (s : FState α) (cmd : Cmd α)
-    (extruderPosition feedRate finalZ : Option α) (xyPairs : List (Option α × Option α)) :
-    Except PyErr (FState α × Result α) := do
-  let startPosition := s.position
+/-- first part of `processLinearMoves`: apply the E, Z and F words; returns the state, `deltaE`
+and `isMove` -/
+def FState.applyEZF (s : FState α) (extruderPosition feedRate finalZ : Option α)
+    (xyPairs : List (Option α × Option α)) : Except PyErr (FState α × α × Bool) := do
   let priorE := s.position.e.current
   let (s, deltaE) ← match extruderPosition with
     | some ep => do
@@ -351,27 +350,41 @@ def FState.processLinearMoves (cfg : Config) (s : FState α) (cmd : Cmd α)
   let s := match feedRate with
     | some f => { s with feedRate := f * s.feedRateUnitMultiplier }
     | none => s
+  .ok (s, deltaE, isMove)
+
+/-- the `isMove` branches of `processLinearMoves` -/
+def FState.moveBody (cfg : Config) (s : FState α) (cmd : Cmd α) (deltaE : α) (priorE : Option α)
+    (startPosition : Position α) (xyPairs : List (Option α × Option α)) :
+    Except PyErr (FState α × List (Out α)) := do
+  let (s, anyEx) ← s.isAnyPointExcluded xyPairs
+  if anyEx then do
+    let was := s.excluding
+    let (s, cmds) ← s.processExcludedMove cfg cmd deltaE
+    let s := if s.excluding && !was then { s with lastPosition := some startPosition } else s
+    pure (s, cmds)
+  else if s.excluding then s.exitExcludedRegion cfg
+  else if !(deltaE == 0) then do
+    let lr := s.lastRetraction
+    let (s, cmds) ← s.recoverRetractionIfNeeded cmd false
+    match lr with
+    | some lr =>
+      if lr.recoverExcluded && !lr.firmwareRetract then do
+        let e ← s.position.e.nativeToLogical priorE (some true)
+        pure (s, cmds.dropLast ++ [.g92e e] ++ (match cmds.getLast? with | some c => [c] | none => []))
+      else pure (s, cmds)
+    | none => pure (s, cmds)
+  else pure (s, [.orig cmd])
+
+/-- `processLinearMoves(cmd, extruderPosition, feedRate, finalZ, *xyPairs)` -/
+def FState.processLinearMoves (cfg : Config) (s : FState α) (cmd : Cmd α)
+    (extruderPosition feedRate finalZ : Option α) (xyPairs : List (Option α × Option α)) :
+    Except PyErr (FState α × Result α) := do
+  let startPosition := s.position
+  let priorE := s.position.e.current
+  let (s, deltaE, isMove) ← s.applyEZF extruderPosition feedRate finalZ xyPairs
   let (s, cmds) ←
     if !isMove then s.processNonMove cmd deltaE
-    else do
-      let (s, anyEx) ← s.isAnyPointExcluded xyPairs
-      if anyEx then do
-        let was := s.excluding
-        let (s, cmds) ← s.processExcludedMove cfg cmd deltaE
-        let s := if s.excluding && !was then { s with lastPosition := some startPosition } else s
-        pure (s, cmds)
-      else if s.excluding then s.exitExcludedRegion cfg
-      else if !(deltaE == 0) then do
-        let lr := s.lastRetraction
-        let (s, cmds) ← s.recoverRetractionIfNeeded cmd false
-        match lr with
-        | some lr =>
-          if lr.recoverExcluded && !lr.firmwareRetract then do
-            let e ← s.position.e.nativeToLogical priorE (some true)
-            pure (s, cmds.dropLast ++ [.g92e e] ++ (match cmds.getLast? with | some c => [c] | none => []))
-          else pure (s, cmds)
-        | none => pure (s, cmds)
-      else pure (s, [.orig cmd])
+    else s.moveBody cfg cmd deltaE priorE startPosition xyPairs
   if cmds.isEmpty then .ok (s, .ignore) else .ok (s, .list cmds)
 
 /-- lookup in `extendedExcludeGcodes` -/
